@@ -437,7 +437,6 @@ fn run_history(start: Start, ops: &[Op], base: &Arc<Vec<u8>>, fx: &Fx) -> Run {
                 }
             }
             let _ = s.close().await;
-            drop(s);
         });
         steps.push(StepInfo { name: "Close".into(), end: be.log_len(), ok: true });
         models.push(cur.clone());
@@ -496,12 +495,7 @@ fn case_json(run: &Run, p: usize, mask: u64, w: &Window, fx: &Fx) -> Value {
 
 /// Reopens one crash image and judges it.  Returns the outcome class.
 fn eval_image(run: &Run, p: usize, mask: u64, w: &Window, durable: &[u8], fx: &Fx, rep: &mut Report) {
-    let mut img = durable.to_vec();
-    for (i, idx) in w.items.iter().enumerate() {
-        if mask >> i & 1 == 1 {
-            apply(&mut img, &run.log[*idx]);
-        }
-    }
+    let img = materialise(durable, &run.log, w, mask);
     let n_ack = acked(run, p);
     let dropped = w.items.len() as u32 - mask.count_ones();
     let key = fnv64(format!("{:?}/{:?}/{p}/{mask}", run.start, run.ops).as_bytes());
@@ -594,6 +588,11 @@ fn eval_image(run: &Run, p: usize, mask: u64, w: &Window, durable: &[u8], fx: &F
     }
 }
 
+/// Exploration switch (not used by the tiers): also treat `set_len` as a record that can be lost.
+fn set_len_droppable() -> bool {
+    std::env::var("C22_SETLEN_DROPPABLE").is_ok()
+}
+
 /// One unit of parallel work: a crash point of a run and a chunk of survivor masks.
 struct Job {
     run: usize,
@@ -605,7 +604,7 @@ struct Job {
 fn jobs_for(run_idx: usize, run: &Run, from_p: usize, rep: &mut Report) -> Vec<Job> {
     let mut out = vec![];
     for p in from_p..=run.log.len() {
-        let w = window(&run.log, p);
+        let w = window(&run.log, p, set_len_droppable());
         let (mut masks, exhaustive) = w.masks(SUBSET_CAP);
         if !exhaustive {
             rep.cap_hit(&format!("unsynced window of more than {SUBSET_CAP} records: prefixes/single drops/single survivors/pairs only"));
@@ -621,10 +620,7 @@ fn jobs_for(run_idx: usize, run: &Run, from_p: usize, rep: &mut Report) -> Vec<J
 
 fn run_job(job: &Job, runs: &[Run], fx: &Fx, rep: &mut Report) {
     let run = &runs[job.run];
-    let mut durable = run.base.as_ref().clone();
-    for r in &run.log[..job.w.durable_end] {
-        apply(&mut durable, r);
-    }
+    let durable = durable_image(&run.base, &run.log, &job.w);
     for m in &job.masks {
         eval_image(run, job.p, *m, &job.w, &durable, fx, rep);
     }
@@ -651,7 +647,12 @@ fn histories(max_len: usize) -> Vec<Vec<Op>> {
 fn main() {
     let ctx = Ctx::from_args("C22").with_level("fault_enumeration");
     let max_len = ctx.tier.pick(2usize, 3usize);
-    let wall_cap = Duration::from_secs(ctx.tier.pick(50, 13 * 60));
+    let wall_cap = Duration::from_secs(
+        std::env::var("C22_WALL_CAP")
+            .ok()
+            .and_then(|s| s.parse().ok())
+            .unwrap_or(ctx.tier.pick(50, 13 * 60)),
+    );
     let mut rep = Report::new();
     rep.sample_cap = 8;
 
@@ -676,11 +677,8 @@ fn main() {
         if c["log_shape"].as_str().is_some_and(|s| s != shape) {
             println!("NOTE property=C22 log shape differs from the recorded one ({shape}); crash point indices may have shifted");
         }
-        let w = window(&run.log, p);
-        let mut durable = run.base.as_ref().clone();
-        for r in &run.log[..w.durable_end] {
-            apply(&mut durable, r);
-        }
+        let w = window(&run.log, p, set_len_droppable());
+        let durable = durable_image(&run.base, &run.log, &w);
         eval_image(&run, p, mask, &w, &durable, &fx, &mut rep);
         finish_c22(&ctx, rep, max_len);
     }
@@ -747,6 +745,7 @@ fn main() {
     let stop = AtomicBool::new(false);
     let skipped = AtomicU64::new(0);
     let mut completed_len: i64 = -1;
+    let mut planned = 0u64;
     for len in 0..=max_len {
         let mut jobs: Vec<Job> = vec![];
         for (i, r) in runs.iter().enumerate().filter(|(_, r)| r.ops.len() == len) {
@@ -770,6 +769,7 @@ fn main() {
             };
             jobs.extend(jobs_for(i, r, from_p.min(r.log.len() + 1), &mut rep));
         }
+        planned += jobs.iter().map(|j| j.masks.len() as u64).sum::<u64>();
         let level_rep = jobs
             .par_iter()
             .fold(Report::new, |mut rr, job| {
@@ -803,6 +803,7 @@ fn main() {
         ));
     }
     rep.extra("completed_history_length", json!(completed_len));
+    rep.extra("crash_images_planned_in_started_levels", json!(planned));
     rep.extra("histories_whose_prefix_log_shape_differed_from_parent", json!(nondeterministic_prefixes));
     rep.max_depth = max_len as u64;
     // a live history written out
@@ -822,10 +823,10 @@ fn finish_c22(ctx: &Ctx, rep: Report, _max_len: usize) -> ! {
         ctx,
         rep,
         Spec {
-            rule: "histories = all sequences of length <= 2 (quick) / <= 3 (thorough) over {insert 1..=2, insert 3..=3, insert 5..=6, insert 4..=4, remove_height 1, mark_as_sampled 2, update_sampling_metadata 2 [c1,c2], refused unchecked insert [A4,A4]} x start in {empty backend, cleanly closed db holding 1..=2,5..=6 + metadata}; each run = steps DbOpen, StoreNew, ops, Close on the real RedbStore over a logging StorageBackend; crash space = every log prefix p x every subset of the records (writes and set_len) issued after the last non-eventual sync_data in the prefix (eventual syncs act as barriers); windows of steps shared with the prefix history are enumerated under that history only (log shapes compared), so each (pre-state, operation, crash point, lost-write subset) is reopened once; evaluation = one crash image reopened with redb::Database + RedbStore::new and totally observed (ranges, head, get_by_height/has_at/get_sampling_metadata for h in 0..=7, get_by_hash/has for A1..A6) and compared with the reference-model states after j steps for all j >= number of steps returned before p; distinct = (start, history, p, subset); non-trivial = the unsynced window of the crash point is non-empty",
+            rule: "histories = all sequences of length <= 2 (quick) / <= 3 (thorough) over {insert 1..=2, insert 3..=3, insert 5..=6, insert 4..=4, remove_height 1, mark_as_sampled 2, update_sampling_metadata 2 [c1,c2], refused unchecked insert [A4,A4]} x start in {empty backend, cleanly closed db holding 1..=2,5..=6 + metadata}; each run = steps DbOpen, StoreNew, ops, Close on the real RedbStore over a logging StorageBackend; crash space = every log prefix p x every subset of the whole writes issued after the last non-eventual sync_data in the prefix (eventual syncs act as barriers; set_len applies at once); windows of steps shared with the prefix history are enumerated under that history only (log shapes compared), so each (pre-state, operation, crash point, lost-write subset) is reopened once; evaluation = one crash image reopened with redb::Database + RedbStore::new and totally observed (ranges, head, get_by_height/has_at/get_sampling_metadata for h in 0..=7, get_by_hash/has for A1..A6) and compared with the reference-model states after j steps for all j >= number of steps returned before p; distinct = (start, history, p, subset); non-trivial = the unsynced window of the crash point is non-empty",
             assumptions: &[
                 "whole-write atomicity: a single StorageBackend::write is persisted entirely or not at all (no torn write)",
-                "records issued before a completed non-eventual sync_data are durable; later records survive in any subset; a surviving write beyond the persisted length extends the file",
+                "records issued before a completed non-eventual sync_data are durable; later writes survive in any subset; set_len (file length) takes effect at once and durably — only whole writes are lost, as in the property's quantifier",
                 "a crash inside redb's own file creation (Database::create on an empty backend, before RedbStore::new runs) may leave a file redb refuses (magic number not yet written); counted as class db-create:refused-by-redb, not as a store failure",
                 "the libp2p identity is not part of the observation",
                 "header bytes come from ExtendedHeaderGenerator (random keys); a replay file carries the headers",
